@@ -5,10 +5,12 @@ import (
 	"reflect"
 	"sort"
 	"strings"
+	"sync"
 	"time"
 
 	"github.com/godaddy/asherah/go/appencryption/pkg/cache"
 
+	"asherahverif/explore"
 	"asherahverif/shim/vclock"
 	"asherahverif/shim/vsched"
 	"asherahverif/walker"
@@ -539,5 +541,34 @@ func CheckC15(r *Report) {
 		}
 		kr := c15BFS(cfg, r.Deadline)
 		r.AddK(kr, nil)
+	}
+}
+
+// c15RaceBody hammers asynchronous caches of every policy from three goroutines (free-running -race pass only).
+func c15RaceBody(c *explore.Ctx) {
+	for _, pol := range []string{"lru", "lfu", "slru", "tinylfu"} {
+		var mu sync.Mutex
+		n := 0
+		ch := cache.New[string, string](2).WithPolicy(cache.CachePolicy(pol)).WithEvictFunc(func(k, v string) { mu.Lock(); n++; mu.Unlock() }).Build()
+		for t := 0; t < 3; t++ {
+			t := t
+			vsched.GoNamed("user", func() {
+				keys := []string{"a", "b", "c", "d"}
+				for i := 0; i < 40; i++ {
+					k := keys[(i+t)%4]
+					switch i % 3 {
+					case 0:
+						ch.Set(k, "v")
+					case 1:
+						ch.Get(k)
+					default:
+						ch.Delete(k)
+					}
+					ch.Len()
+				}
+			})
+		}
+		vsched.Quiesce()
+		ch.Close()
 	}
 }
